@@ -520,4 +520,206 @@ theorem inv_accStore (c : Cfg) (hc : c.Ok) (s s' : State) (h : Inv c s) (j : Nat
   obtain ⟨i, k, ht, kn', hkn, he⟩ := store_shape c hc s s' h j hs
   exact inv_store_state c hc s s' h j i k ht kn' hkn he
 
+/-- Facts about the connection the accept goroutine of j has stored and not yet signalled. -/
+structure StoredFacts (c : Cfg) (s : State) (j i k : Nat) : Prop where
+  dials : Dials i j
+  aset : (s.conn j i k).isSome
+  jn : j < c.n
+  acc : s.acc j = true
+  km : k < c.m
+
+theorem Inv.storedFacts {c : Cfg} {s : State} (h : Inv c s) {j i k : Nat} (ht : s.infl j = .stored i k) :
+    StoredFacts c s j i k := by
+  have := h.infl j
+  unfold InflInv at this
+  rw [ht] at this
+  obtain ⟨h1, h2, h3, h4⟩ := this
+  cases hcn : s.conn j i k with
+  | none => simp [hcn] at h2
+  | some v => exact ⟨h1, h2, h3, h4, (h.slot j i k v hcn).2.2.2.2⟩
+
+/-- `need[k]` of a party whose accept goroutine owes the decrement for k is positive. -/
+theorem Inv.need_pos_stored {c : Cfg} {s : State} (h : Inv c s) {j i k : Nat} (ht : s.infl j = .stored i k) :
+    s.need j k = missing s j (if j = 0 then c.n else j) k + 1 := by
+  have hf := h.storedFacts ht
+  have hsb : sbit s j k = 1 := by simp [sbit, ht]
+  by_cases hj0 : j = 0
+  · subst hj0
+    have hne : s.phase 0 ≠ .init := by
+      intro e; have := (h.leader.initial e).1; simp [hf.acc] at this
+    simp only [if_true]
+    rw [(h.leader.started hne).2 k hf.km, hsb]
+  · obtain ⟨k0, todo, hpr⟩ := h.acc_active (by omega) hf.jn hf.acc
+    have hA := (h.peer j (by omega) hf.jn).active k0 todo hpr
+    simp only [hj0, if_false]
+    rw [hA.need k hf.km, hsb]
+
+theorem inv_accDec (c : Cfg) (hc : c.Ok) (s s' : State) (h : Inv c s) (j : Nat)
+    (hs : step c s (.accDec j) = some s') : Inv c s' := by
+  have hn2 := hc.n2
+  simp only [step, stepAccDec] at hs
+  cases ht : s.infl j with
+  | none => simp [ht] at hs
+  | taken a b => simp [ht] at hs
+  | stored i k =>
+    simp only [ht] at hs
+    have hf := h.storedFacts ht
+    have hnd := h.need_pos_stored ht
+    rw [if_pos (by omega)] at hs
+    simp only [Option.some.injEq] at hs
+    have e_infl : s'.infl = upd s.infl j .none := by subst hs; rfl
+    have e_need : s'.need = upd2 s.need j k (s.need j k - 1) := by subst hs; rfl
+    have e_conn : s'.conn = s.conn := by subst hs; rfl
+    have e_known : s'.known = s.known := by subst hs; rfl
+    have e_pend : s'.pend = s.pend := by subst hs; rfl
+    have e_phase : s'.phase = s.phase := by subst hs; rfl
+    have e_np : s'.np = s.np := by subst hs; rfl
+    have e_acc : s'.acc = s.acc := by subst hs; rfl
+    have e_mail : s'.mail = s.mail := by subst hs; rfl
+    have e_bad : s'.bad = s.bad := by subst hs; rfl
+    clear hs
+    have hmiss : ∀ p b k', missing s' p b k' = missing s p b k' := by
+      intro p b k'; apply missing_congr; intro y _ _; rw [e_conn]
+    have hsbj : ∀ k', sbit s' j k' = 0 := by intro k'; simp [sbit, e_infl]
+    have hsbjo : ∀ k', sbit s j k' = if k' = k then 1 else 0 := by
+      intro k'; simp [sbit, ht]
+      by_cases e : k = k' <;> simp [e, eq_comm]
+    have hsbo : ∀ p k', p ≠ j → sbit s' p k' = sbit s p k' := by
+      intro p k' hp; simp [sbit, e_infl, upd_apply, hp]
+    have htk : ∀ q, (s'.infl 0 = .taken q 0 ↔ s.infl 0 = .taken q 0) := by
+      intro q
+      simp only [e_infl, upd_apply]
+      split
+      · rename_i e; subst e; simp [ht]
+      · rfl
+    refine ⟨by rw [e_bad]; exact h.notBad, ?_, by rw [e_phase]; exact h.outside,
+      by rw [e_conn]; exact h.slot, by rw [e_conn, e_pend]; exact h.accSlot,
+      by rw [e_conn, e_pend]; exact h.pendSlot, ?_, ?_, ?_⟩
+    · intro j'
+      unfold InflInv
+      rw [e_infl, e_conn, e_pend, e_acc, e_phase]
+      simp only [upd_apply]
+      by_cases hj' : j' = j
+      · simp [hj']
+      · simp only [hj', if_false]
+        exact h.infl j'
+    · intro a b k' hd hcn
+      rw [e_conn] at hcn ⊢
+      rw [e_pend, e_phase, e_infl]
+      rcases h.dialSlot a b k' hd hcn with e | e | e | e
+      · exact Or.inl e
+      · exact Or.inr (Or.inl e)
+      · exact Or.inr (Or.inr (Or.inl e))
+      · right; right; right
+        simp only [upd_apply]
+        split
+        · rename_i e'; subst e'; rw [ht] at e; simp at e
+        · exact e
+    · -- leader
+      have hL := h.leader
+      by_cases hj0 : j = 0
+      · subst hj0
+        have hne : s.phase 0 ≠ .init := by
+          intro e; have := (hL.initial e).1; simp [hf.acc] at this
+        simp only [if_true] at hnd
+        refine ⟨by rw [e_phase]; exact hL.shape, by rw [e_np]; exact hL.np0,
+          by rw [e_known, e_conn]; exact hL.knownMem, by rw [e_known]; exact hL.knownNodup,
+          by rw [e_known, hmiss]; exact hL.lenKnown, ?_, ?_, ?_,
+          by rw [e_phase]; exact hL.infoRest, by rw [e_mail]; exact hL.mail0⟩
+        · intro e; rw [e_phase] at e; exact absurd e hne
+        · intro _
+          refine ⟨by rw [e_acc]; exact hf.acc, ?_⟩
+          intro k' hk'
+          rw [hsbj k', hmiss]
+          simp only [e_need, upd2_apply]
+          have hold := (hL.started hne).2 k' hk'
+          rw [hsbjo k'] at hold
+          by_cases e : k' = k
+          · subst e; simp only [true_and, if_true] at hold ⊢; omega
+          · simp only [e, and_false, if_false] at hold ⊢; omega
+        · intro k' hk' hkm
+          rw [e_phase] at hk'
+          simp only [e_need, upd2_apply]
+          by_cases e : k' = k
+          · subst e
+            have := hL.waited k' hk' hkm
+            omega
+          · simp only [e, and_false, if_false]
+            exact hL.waited k' hk' hkm
+      · have hj0' : 0 ≠ j := Ne.symm hj0
+        apply hL.congr <;>
+          first
+          | (intro k'; exact hsbo 0 k' hj0')
+          | simp [e_phase, e_np, e_known, e_conn, e_acc, e_need, e_mail, upd_apply, upd2_apply, hj0, hj0']
+    · intro q hq hqn
+      have hq0 : q ≠ 0 := by omega
+      by_cases hqj : q = j
+      · subst hqj
+        simp only [hq0, if_false] at hnd
+        obtain ⟨k0, todo, hpr⟩ := h.acc_active hq hqn hf.acc
+        have hP := h.peer q hq hqn
+        have hA := hP.active k0 todo hpr
+        have hph : ∀ ph, s.phase q = ph → prog c ph = some (k0, todo) := by intro ph e; rw [← e]; exact hpr
+        refine ⟨?_, ?_, ?_, by rw [e_phase]; exact hP.notInfo, by rw [e_phase]; exact hP.runLt, ?_⟩
+        · intro e; rw [e_phase] at e; have := hph _ e; simp [prog] at this
+        · intro e; rw [e_phase] at e; have := hph _ e; simp [prog] at this
+        · intro e; rw [e_phase] at e; have := hph _ e; simp [prog] at this
+        · intro k1 todo1 hpr1
+          rw [e_phase] at hpr1
+          have : k1 = k0 ∧ todo1 = todo := by
+            rw [hpr] at hpr1; simp at hpr1; exact ⟨hpr1.1.symm, hpr1.2.symm⟩
+          obtain ⟨e1, e2⟩ := this
+          subst e1 e2
+          refine ⟨hA.kle, by rw [e_phase]; exact hA.sent, by rw [e_mail]; exact hA.nomail,
+            by rw [e_acc]; exact hA.acc, by rw [e_np]; exact hA.np, by rw [e_known]; exact hA.knownMem,
+            by rw [e_known]; exact hA.knownNodup, ?_, ?_, ?_⟩
+          · obtain ⟨pre, hpre, hdial⟩ := hA.dialed
+            refine ⟨pre, ?_, ?_⟩
+            · intro hlt; rw [← hpre hlt]; simp [targets, e_known]
+            · intro x k' hd; rw [e_conn]; exact hdial x k' hd
+          · intro k' hk'
+            rw [hsbj k', hmiss]
+            simp only [e_need, upd2_apply]
+            have hold := hA.need k' hk'
+            rw [hsbjo k'] at hold
+            by_cases e : k' = k
+            · subst e; simp only [true_and, if_true] at hold ⊢; omega
+            · simp only [e, and_false, if_false] at hold ⊢; omega
+          · intro k' hk' hkm
+            simp only [e_need, upd2_apply]
+            by_cases e : k' = k
+            · subst e
+              have := hA.waited k' hk' hkm
+              omega
+            · simp only [e, and_false, if_false]
+              exact hA.waited k' hk' hkm
+      · apply (h.peer q hq hqn).congr <;>
+          first
+          | (intro k'; exact hsbo q k' hqj)
+          | exact htk q
+          | simp [e_phase, e_np, e_known, e_conn, e_acc, e_need, e_mail, e_pend, upd_apply, upd2_apply,
+              hqj, Ne.symm hqj]
+
+/-- Every step of the code as it is preserves the invariant. -/
+theorem inv_step (c : Cfg) (hc : c.Ok) (s s' : State) (h : Inv c s) (e : Ev) (he : e.real = true)
+    (hs : step c s e = some s') : Inv c s' := by
+  cases e with
+  | join i => exact inv_join c hc s s' h i hs
+  | lconnect => exact inv_lconnect c hc s s' h hs
+  | hello i => exact inv_hello c hc s s' h i hs
+  | accTake j i k => exact inv_accTake c hc s s' h j i k hs
+  | accStore j => exact inv_accStore c hc s s' h j hs
+  | accDec j => exact inv_accDec c hc s s' h j hs
+  | oldDec j i k => simp [Ev.real] at he
+  | oldStore j => simp [Ev.real] at he
+  | waitDone p => exact inv_waitDone c hc s s' h p hs
+  | info => exact inv_info c hc s s' h hs
+  | recvInfo i => exact inv_recvInfo c hc s s' h i hs
+  | dial i => exact inv_dial c hc s s' h i hs
+
+theorem reach_inv (c : Cfg) (hc : c.Ok) (s : State) (hr : Reach c s) : Inv c s := by
+  induction hr with
+  | init => exact inv_init c hc
+  | step e _ he hs ih => exact inv_step c hc _ _ ih e he hs
+
 end Mpc.Mesh
